@@ -233,7 +233,7 @@ func commitScenario(a schedArg) (body func() string, baseline string, err error)
 		if a.Variant == 2 {
 			// a map slab and an array slab that fail to encode; the body removes them after the
 			// failed commit and commits again (error paths must leave the shared pools usable)
-			if _, err := w.Conts[1].Map.Set(tu.CompareValue, tu.GetHashInput, tu.Uint64Value(50), failingValue{}); err != nil {
+			if _, err := w.Conts[1].Map.Set(CompareValue, GetHashInput, tu.Uint64Value(50), failingValue{}); err != nil {
 				return nil, err
 			}
 			if err := w.Conts[2].Arr.Append(failingValue{}); err != nil {
@@ -259,7 +259,7 @@ func commitScenario(a schedArg) (body func() string, baseline string, err error)
 			if first == nil {
 				return "first commit succeeded although two slabs cannot be encoded", nil
 			}
-			if _, _, err := w.Conts[1].Map.Remove(tu.CompareValue, tu.GetHashInput, tu.Uint64Value(50)); err != nil {
+			if _, _, err := w.Conts[1].Map.Remove(CompareValue, GetHashInput, tu.Uint64Value(50)); err != nil {
 				return "", err
 			}
 			if _, err := w.Conts[2].Arr.Remove(w.Conts[2].Arr.Count() - 1); err != nil {
@@ -370,12 +370,12 @@ func clientBody(kind int) func() string {
 				return "ERR " + err.Error()
 			}
 			for k := 0; k < 3; k++ {
-				if _, err := m.Set(tu.CompareValue, tu.GetHashInput, tu.Uint64Value(uint64(k)), tu.NewStringValue(fmt.Sprintf("v%d", k))); err != nil {
+				if _, err := m.Set(CompareValue, GetHashInput, tu.Uint64Value(uint64(k)), tu.NewStringValue(fmt.Sprintf("v%d", k))); err != nil {
 					return "ERR " + err.Error()
 				}
 			}
 			for k := 0; k < 4; k++ {
-				v, err := m.Get(tu.CompareValue, tu.GetHashInput, tu.Uint64Value(uint64(k)))
+				v, err := m.Get(CompareValue, GetHashInput, tu.Uint64Value(uint64(k)))
 				fmt.Fprintf(&sb, "get%d=%v,%v;", k, v, err != nil)
 			}
 		case 1:
@@ -408,8 +408,8 @@ func clientBody(kind int) func() string {
 				if err != nil {
 					return "ERR " + err.Error()
 				}
-				ch.Set(tu.CompareValue, tu.GetHashInput, tu.NewStringValue("f0"), tu.Uint64Value(uint64(i)))
-				if _, err := m.Set(tu.CompareValue, tu.GetHashInput, tu.Uint64Value(uint64(i)), ch); err != nil {
+				ch.Set(CompareValue, GetHashInput, tu.NewStringValue("f0"), tu.Uint64Value(uint64(i)))
+				if _, err := m.Set(CompareValue, GetHashInput, tu.Uint64Value(uint64(i)), ch); err != nil {
 					return "ERR " + err.Error()
 				}
 			}
